@@ -81,6 +81,13 @@ def menu(d):
     M["bad_undef"] = ("loads", H + "int n = 7\nG(u) | 0\n")
     M["bad_undef_tmpl"] = ("loads", H + "float x = {q}\nG({n}) | 0\nG(u) | 0\n")
     M["bad_loop"] = ("loads", H + "for int i in 0:3\n    G(u) | i\n")
+    # a loop variable named like a variable declared before the loop, in a load that fails inside the loop / succeeds; and
+    # scripts that use the name after their own loop (refused in a pristine process: the loop variable is gone, nothing else has that name)
+    M["bad_loop_shadow"] = ("loads", H + "int i = 7\nfloat y = 0.5\nfor int i in 0:3\n    G(u) | i\n")
+    M["bad_loop_shadow_list"] = ("loads", H + "float y = 7.5\nfor float y in [1.5, 2+1j]\n    G(y) | 0\n")
+    M["ok_loop_shadow"] = ("loads", H + "int i = 7\nfor int i in 0:2\n    G(i) | i\nH(i) | 0\n")
+    M["probe_after_loop_i"] = ("loads", H + "for int i in 0:2\n    G(i) | i\nH(i) | 0\n")
+    M["probe_after_loop_y"] = ("loads", H + "for float y in [0.25, 0.75]\n    G(y) | 0\nfloat z = y\n")
     M["bad_loop2"] = ("loads", H + "int n = 1\nfor int i in [4, 0.5]\n    G | i\n")
     M["bad_arr"] = ("loads", H + "float x = 2.5\nfloat array A =\n    1, u\n")
     M["bad_type"] = ("loads", H + "float x = 2.5\nint m = 1+2j\n")
